@@ -5,12 +5,66 @@ ROOT = os.path.dirname(os.path.dirname(os.path.abspath(__file__)))
 
 # property -> (technique, level text, level note, design ref)
 CLAIMED = {
- "C01": ("differential runtime monitor: independent README-derived encoder + strict decoder on every Value::to_vec / from_slice / parse_jsonb call; small-scope exhaustive + random documents; Miri slice in thorough",
-         "Held on every observed execution: library bytes equal an independent encoder's bytes, strict decode and both library decoders return the same value, re-encoding is identical. Exploration only: universal claim over an unbounded value space.",
-         "trusted: refcodec.rs (encoder/strict decoder written from README), generators' coverage of shapes"),
- "C18": ("runtime monitor with exact-arithmetic oracle (i128 / exact int-vs-double) on Number codec, Ord/Eq and views; exhaustive 3*2^32 sweep in thorough; sorted-batch transitivity monitor",
-         "Held on observed executions: every swept/random number round-trips bit-exactly in shortest form, malformed tags/widths rejected without panic, ordering equals exact mathematical order on all observed pairs and sorted batches.",
+ "C01": ("differential runtime monitor: independent README-derived encoder + strict decoder observing every Value::to_vec / from_slice / parse_jsonb call; small-scope exhaustive + random documents; Miri slice in thorough",
+         "Held on every observed execution: library bytes equal an independent encoder's bytes, the strict decoder and both library decoders return the same value, re-encoding is identical. Exploration only: the claim is universal over an unbounded value space.",
+         "trusted: refcodec.rs (encoder/strict decoder written from the README), the generators' coverage of shapes"),
+ "C02": ("differential runtime monitor: independent RFC 8259 + listed-relaxations recogniser/parser as oracle on parse_value / parse_lazy_value; exhaustive length<=4 strings over a 25-symbol alphabet, generated documents with spelling variants, single corruptions, token soups; Miri slice",
+         "Held on observed inputs: accept/reject outcome and decoded value equal the reference on every text tried, no panic. Exploration: the language is infinite.",
+         "trusted: refjson.rs lenient mode and Rust std's correctly rounded f64::from_str"),
+ "C03": ("runtime monitor: independent strict RFC 8259 parser applied to every to_string / to_pretty_string output, loop closed through parse_value and byte comparison, independent pretty-layout checker; sweep over Unicode scalar values (all of them in thorough)",
+         "Held on observed documents: both renderings are accepted by the strict parser with the original meaning, parse back to the same value and bytes, pretty differs only by the documented whitespace.",
+         "trusted: refjson.rs strict mode, layout re-formatter in c03.rs"),
+ "C04": ("differential + law monitor: reference total order on trees vs compare in all four text/binary combinations, antisymmetry/reflexivity on observed results, transitivity by sorting batches with compare and checking all pairs",
+         "Held on observed pairs and batches: compare equals the documented order, Equal iff same JSON value, no inverted pair in any sorted batch.",
+         "trusted: refops::compare, refnum exact number order"),
+ "C05": ("differential runtime monitor: every accessor result compared with the tree answer, every returned sub-value checked canonical by the strict decoder; arguments swept over all indices/keys/case variants/key paths per document; Miri slice; ASan in thorough",
+         "Held on observed (document, argument) cases for all listed accessors.",
+         "trusted: refops accessor semantics (Appendix A of DESIGN.md), refcodec"),
+ "C06": ("differential runtime monitor with append-only monitor: each editor's output must be the canonical encoding of the tree edit, documented errors must append nothing; all positions -len-2..len+2 and i32 extremes; Miri slice and ASan in thorough",
+         "Held on observed edits for all listed editors.",
+         "trusted: refops editor semantics, refcodec"),
+ "C07": ("history monitor: chains of 5-50 library operations over a small pool of live documents, the library's own output bytes are fed back; after every step strict decode + re-encode + shadow tree equality",
+         "Held on every step of every observed chain: results stay canonical and equal to the shadow tree.",
+         "trusted: refops/refpath semantics, refcodec"),
+ "C08": ("differential runtime monitor: three-valued reference JSONPath evaluator on trees vs Selector::select / exists / predicate_match; document-guided path generator; arithmetic forms driven for totality; Miri slice and ASan in thorough",
+         "Held on observed (path, document) pairs where the documented meaning is specified; cross-kind comparisons are observed for no-panic only.",
+         "trusted: refpath evaluator (README operator table + rustdoc), path renderer"),
+ "C09": ("runtime monitor: generator-known intended AST vs parsed AST under spacing / keyword-case / quoting variants, print-then-parse, raw totality (token soups, corruptions, unterminated quotes, leftovers); Miri slice in thorough",
+         "Held on observed renderings and raw inputs: intended structure recovered, printing faithful, no panic, leftovers rejected.",
+         "trusted: the renderer's notion of legal spacing (positions where the grammar has optional whitespace and tokens stay separable)"),
+ "C10": ("fault-injection runtime monitor + Miri UB interpreter: truncation at every offset, all single bit flips, byte substitution, insert/delete, rewritten header/entry words, multi-fault sequences, invalid UTF-8 payloads, header-lookalike JSON texts; outcome / UTF-8 / prefix / text-fallback oracles",
+         "Held on observed hostile inputs: no panic, no ill-formed string, every proper prefix rejected, valid JSON text decoded as text. Under Miri returned values are additionally formatted so ill-formed str is flagged as UB.",
+         "trusted: refjson lenient parser for the text-fallback clause; fault generator reach"),
+ "C11": ("2^k-way differential monitor: every public document function called with each argument as text or as the reference encoding of that text; observations compared with the all-binary call; header-lookalike and long-mantissa texts; Miri slice in thorough",
+         "Held on observed call groups: same observable result for text and JSONB in every argument position.",
+         "trusted: per-type observation functions in c11.rs (renderings compared by meaning, serde values by exact numeric meaning)"),
+ "C12": ("differential + law monitor: reference containment from the statement vs contains in all four representations; reflexivity; transitivity on chains a>=b>=c built by construction; scalar case tied to compare equality",
+         "Held on observed pairs/triples.",
+         "trusted: refops::contains"),
+ "C13": ("differential + algebraic-law monitor: reference multiset semantics vs array_distinct / intersection / except / overlap, idempotence on the library's own output, canonical outputs, append-only monitor",
+         "Held on observed pairs incl. exhaustive small lists.",
+         "trusted: refops set functions; element identity = equal canonical encodings"),
+ "C14": ("order-embedding monitor: bytewise key order vs compare (and vs the reference order) on all pairs of batches; mismatches classified by the first differing leaf into root-cause signatures",
+         "Held on observed pairs except for the listed known findings (numbers with equal double image, string/key prefix vs depth marker, depth >= 256), which are printed as KNOWN-FINDING; any other mismatch class is a VIOLATION.",
+         "trusted: refops::compare; classification walk in c14.rs"),
+ "C15": ("relational runtime monitor (no model): First/Array/All/Mixed/exists/predicate_match and the five convenience functions compared with each other on the same (path, document); offsets must delimit canonical items",
+         "Held on observed (path, document) pairs for all modes and entry points.",
+         "trusted: refcodec strict decoder for item canonicity"),
+ "C16": ("runtime monitor: intended elements vs parse_key_paths under spacing variants, print-then-parse, raw totality (token soups, unterminated quotes, missing braces, random bytes); Miri slice in thorough",
+         "Held on observed renderings and raw inputs.",
+         "trusted: renderer in c16.rs"),
+ "C17": ("append-only monitor over batches: 2-20 buffer-writing calls share one data buffer and one offsets vector; after each call earlier bytes/offsets unchanged, suffix equals empty-buffer output, offsets are positions in the shared buffer, errors append nothing; the same monitor also runs inside C01/C06/C13 workloads",
+         "Held on observed batches for every buffer-writing function.",
+         "none beyond determinism of the functions under test"),
+ "C18": ("runtime monitor with exact-arithmetic oracle (i128 / exact int-vs-double) on Number codec, Ord/Eq and views; exhaustive 3*2^32 sweep in thorough; sorted-batch transitivity monitor; all tags x widths for malformed bytes",
+         "Held on observed executions: every swept/random number round-trips bit-exactly in shortest form, malformed tags/widths rejected without panic, ordering equals the exact mathematical order on all observed pairs and sorted batches.",
          "trusted: refnum.rs exact comparison, std f64 semantics"),
+ "C19": ("runtime monitor: structural walk comparing serde_json values (class and value of every number) with the tree and with an independent strict parse of the rendering; back-conversion equality; object-only variant",
+         "Held on observed documents.",
+         "trusted: refjson strict parser; serde_json's Number accessors"),
+ "C20": ("subprocess exit-status monitor: one process per (entry point, shape, depth) cell on an 8 MiB stack, depths 1..300000; in-process checked-arithmetic cells for extreme i32 positions/indices compared with the model",
+         "Held on observed cells except the listed known stack-exhaustion findings (per entry point, from a depth floor upwards); a crash below a floor, in another entry point, or any panic is a VIOLATION. A schedule of depths is observed, not every depth.",
+         "8 MiB thread stack, this compiler and the checked release profile determine the depth at which recursion overflows"),
 }
 UNDER_CONSTRUCTION = {}
 
